@@ -51,8 +51,6 @@ def run(ctx):
     # every row again with the client's receive window closed while request 1 is handled: the response is
     # still being written when the handler (prepare() of an early-finishing handler) returns
     jobs += [(len(rows) + i + 1, row, {"stall": True}) for i, row in enumerate(rows)]
-    traces = framework.pool_map(_job, jobs)
-    ctx.validate(FAM, "Trace_KeepAlive", "Trace_KeepAlive.cfg", traces, label="s2c", sig_fn=sig_of)
     ctx.cov["exhaustive"] = True
     # variants: pipelined in one piece / random segmentation / streaming handler without early finish
     n = ctx.pick(1500, 12000)
@@ -71,8 +69,8 @@ def run(ctx):
         if rng.random() < 0.3:
             kw["stall"] = True
         vjobs.append((base + i + 1, row, kw))
-    vtraces = framework.pool_map(_job, vjobs)
-    ctx.validate(FAM, "Trace_KeepAlive", "Trace_KeepAlive.cfg", vtraces, label="c2s", sig_fn=sig_of)
+    traces = framework.pool_map(_job, jobs + vjobs)
+    ctx.validate(FAM, "Trace_KeepAlive", "Trace_KeepAlive.cfg", traces, label="s2c+c2s", sig_fn=drv.with_kind(sig_of, base + 1))
     ctx.cov["rule"] = ("rows: the full well-formed product version{1.0,1.1} x Connection{absent,close,Close,keep-alive,"
                        "Keep-Alive,'close, x','x, close',x} x method x request framing x no_keep_alive x early finish x "
                        "style{buffered,flushed,flushed+Content-Length} x status{200,204} (%d rows), each followed by a second "
